@@ -26,9 +26,9 @@ LEVEL = 'exploration'
 COUNTS = {'quick': 260, 'thorough': 6000}
 BUDGET = {'quick': 110, 'thorough': 1500}
 TIMEOUT = 240
-SHRINK_LISTS = [['hops']]
+SHRINK_LISTS = [['hops'], ['files']]
 EXPECTED_PROBES = ['roundtrip_json', 'roundtrip_xlsx', 'chain', 'pf_compared', 'init_compared', 'truncated', 'lost_write',
-                   'load_failed_loudly', 'params_compared']
+                   'load_failed_loudly', 'params_compared', 'rewrites_compared']
 RULE = ('plan = (stock case incl. raw/dyr and matpower sources, hop sequence over {json, xlsx}, stream or file, optional storage fault); '
         'non-trivial = at least one reload was compared or a fault was injected; distinct = (case, hops, fault kind)')
 ASSUMPTIONS = [
@@ -37,6 +37,16 @@ ASSUMPTIONS = [
     'the xlsx directory yields another well-formed file), so no detection can be demanded; truncation and lost writes are injected',
 ]
 SOURCES = ['ieee14/ieee14.raw', 'kundur/kundur.raw', 'matpower/case14.m', 'matpower/case5.m', 'wscc9/wscc9.raw']
+
+
+# the same path written again with other content and read again in the same process (a reader must not answer from memory)
+REWRITE = {
+    'raw': ['ieee14/ieee14.raw', 'kundur/kundur.raw', 'wscc9/wscc9.raw', 'ieee39/ieee39.raw', 'wscc9/wscc9_3wxfr.raw'],
+    'm': ['matpower/case14.m', 'matpower/case5.m', 'matpower/case118.m'],
+    'json': ['5bus/pjm5bus.json', 'kundur/kundur_full.json', 'ieee14/ieee14.json', 'smib/SMIB.json'],
+    'xlsx': ['kundur/kundur_full.xlsx', 'ieee14/ieee14_fault.xlsx', 'wscc9/wscc9.xlsx', 'smib/SMIB.xlsx'],
+    'dyr': ['kundur/kundur_full.dyr', 'kundur/kundur_gencls.dyr'],       # with kundur/kundur.raw
+}
 
 
 def all_cases():
@@ -50,6 +60,8 @@ def plans(seed, tier, count):
         if c in gen.BIG:
             continue
         out.append({'property': PROP, 'seed': core.H('fix13', i), 'case': c, 'hops': ['json' if i % 2 else 'xlsx'], 'via': 'file', 'fault': None})
+    for j, (ext, files) in enumerate(sorted(REWRITE.items())):
+        out.insert(j, {'property': PROP, 'seed': core.H('fix13rw', j), 'kind': 'rewrite', 'ext': ext, 'files': files[:2] + files[:1]})
     i = 0
     while len(out) < count:
         out.append({'stub': True, 'seed': core.H(seed, PROP, i), 'tier': tier})
@@ -60,6 +72,11 @@ def plans(seed, tier, count):
 def elaborate(stub):
     seed = stub['seed']
     r = stream(seed, 'case')
+    w = stream(seed, 'rewrite')
+    if w.random() < 0.12:
+        ext = w.choice(sorted(REWRITE))
+        files = [w.choice(REWRITE[ext]) for _ in range(w.choice([2, 3, 4]))]
+        return {'property': PROP, 'seed': seed, 'kind': 'rewrite', 'ext': ext, 'files': files}
     cs = [c for c in all_cases() if c not in gen.BIG or (stub.get('tier') == 'thorough' and r.random() < 0.3)]
     case = r.choice(cs)
     hops = [r.choice(['json', 'xlsx']) for _ in range(r.choice([1, 1, 2, 3]))]
@@ -181,6 +198,53 @@ def reload(handle, fmt):
     return andes.load(val, no_output=True, default_config=True, autogen_stale=False)
 
 
+def run_rewrite(plan, res, v, probes, d):
+    """One path, rewritten with the content of several stock files in turn and read again each time in this process."""
+    import andes
+    import shutil
+    ext = plan['ext']
+    path = os.path.join(d, 'case.' + ('raw' if ext == 'dyr' else ext))
+    dyr = os.path.join(d, 'case.dyr')
+    refs = {}
+    for k, src in enumerate(plan['files']):
+        if ext == 'dyr':
+            shutil.copyfile(os.path.join(os.path.dirname(andes.__file__), 'cases', 'kundur/kundur.raw'), path)
+            shutil.copyfile(os.path.join(os.path.dirname(andes.__file__), 'cases', src), dyr)
+            kw = {'addfile': dyr}
+        else:
+            shutil.copyfile(os.path.join(os.path.dirname(andes.__file__), 'cases', src), path)
+            kw = {}
+        if src not in refs:
+            # reference: the stock file read from its own path
+            if ext == 'dyr':
+                r0 = andes.load(os.path.join(os.path.dirname(andes.__file__), 'cases', 'kundur/kundur.raw'),
+                                addfile=os.path.join(os.path.dirname(andes.__file__), 'cases', src),
+                                no_output=True, default_config=True, autogen_stale=False)
+            else:
+                r0 = build_system(src)
+            refs[src] = data_of(r0)
+        ss = andes.load(path, no_output=True, default_config=True, autogen_stale=False, **kw)
+        if ss is None:
+            v.append(V('reread', 'write %d (%s): loading the rewritten path returned None' % (k, src), what='none', ext=ext))
+            break
+        probes['rewrites_compared'] = probes.get('rewrites_compared', 0) + 1
+        tmpv = []
+        if not compare_data(refs[src], data_of(ss), 'write %d' % k, tmpv, probes):
+            v.append(V('reread', 'the path was rewritten with the content of %s (write %d of %s) and read again in the same process, but '
+                       'the system built is not that of the file: %s' % (src, k, plan['files'], tmpv[0]['detail'][:200]),
+                       what='stale_or_wrong_content', ext=ext))
+            break
+    res['probes'] = probes
+    res['faults'] = {'rewrite_same_path': max(0, len(plan['files']) - 1)}
+    res['sig'] = json.dumps(['rewrite', ext, plan['files']])
+    res['nontrivial'] = bool(probes.get('rewrites_compared', 0) >= 2)
+    res['steps'] = len(plan['files'])
+    dg = core.Digest()
+    dg.add(res['sig'], sorted(core.vclass(x) for x in v), sorted(probes.items()))
+    res['digest'] = dg.hex()
+    return res
+
+
 def execute(plan):
     if plan.get('stub'):
         plan = elaborate(plan)
@@ -189,6 +253,12 @@ def execute(plan):
     v = res['violations']
     probes = {}
     d = scratch_dir('c13-')
+    if plan.get('kind') == 'rewrite':
+        try:
+            return run_rewrite(plan, res, v, probes, d)
+        finally:
+            import shutil
+            shutil.rmtree(d, ignore_errors=True)
     try:
         ss0 = build_system(plan['case'])
         ref = data_of(ss0)
